@@ -7,7 +7,12 @@
 //               keys from exactly the advertised list
 //   average/*   ckks.Evaluator.Average for every batch size
 //   trace/*     Trace / TraceNew for every depth
-//   latekeys/*  key inserted into the key set after the evaluator was built
+//   latekeys/*  keys inserted into the key set after the evaluator was built (no / another / the order-two / the same
+//               key at construction), used through plain, hoisted, lazy and shallow-copy entry points
+//   userfn/*    BGV InnerFunction with a user function that multiplies (slot-wise products of groups)
+//   automorphism/rlwe/*, rlwesums/rlwe/*  scheme-less RLWE with NTTFlag false and true: every element of the Galois
+//               group, PartialTracesSum / Replicate / InnerFunction(user function) / Trace in the coefficient domain
+//   packing/rlwe/*  ring-packing Expand and Pack with keys from exactly GaloisElementsForExpand / ForPack
 package main
 
 import (
@@ -39,12 +44,12 @@ func ckksCfgs(tier string) []cklib.Cfg {
 		mk("std-logN5-P2-sparse3", std, 5, q4, p2, 3, 0), mk("ci-logN5-P1-sparse3", ci, 5, q4, p1, 3, 0),
 		mk("std-logN6-P1", std, 6, q4, p1, -1, 0), mk("ci-logN6-P1", ci, 6, q4, p1, -1, 0), mk("std-logN5-P0", std, 5, q4, nil, -1, 6),
 		mk("std-logN7-P2-sparse4", std, 7, q4, p2, 4, 0), mk("std-logN7-P1", std, 7, q4, p1, -1, 0), mk("ci-logN7-P2-sparse5", ci, 7, q4, p2, 5, 0),
+		mk("std-logN6-P2", std, 6, q5, p2, -1, 0), mk("std-logN6-P0", std, 6, q4, nil, -1, 6), mk("ci-logN6-P2", ci, 6, q4, p2, -1, 0),
 	}
 	if tier == "thorough" {
 		// the real thorough tier: LogN 6-8 in every shape
 		cfgs = append(cfgs,
-			mk("std-logN6-P2", std, 6, q5, p2, -1, 0), mk("std-logN6-P0", std, 6, q4, nil, -1, 6), mk("std-logN6-P3", std, 6, q5, p3, -1, 0),
-			mk("ci-logN6-P2", ci, 6, q4, p2, -1, 0), mk("ci-logN6-P0", ci, 6, q4, nil, -1, 6),
+			mk("std-logN6-P3", std, 6, q5, p3, -1, 0), mk("ci-logN6-P0", ci, 6, q4, nil, -1, 6),
 			mk("std-logN7-P0", std, 7, q4, nil, -1, 6), mk("std-logN7-P2", std, 7, q5, p2, -1, 0), mk("ci-logN7-P1", ci, 7, q4, p1, -1, 0),
 			mk("std-logN7-P1-sparse5", std, 7, q4, p1, 5, 0), mk("ci-logN7-P2-sparse6", ci, 7, q4, p2, 6, 0),
 			mk("std-logN8-P1", std, 8, q4, p1, -1, 0), mk("std-logN8-P2-sparse6", std, 8, q4, p2, 6, 0), mk("ci-logN8-P1-sparse6", ci, 8, q4, p1, 6, 0),
@@ -116,12 +121,16 @@ func main() {
 		Rule: "algebra: every a,b in [-2n,2n], every subgroup element, extreme k per NthRoot and ring type (evaluations = identities checked). " +
 			"ciphertexts: one leaf per (configuration, k) / (configuration, (batch,n), method) / (configuration, trace depth); keys are generated for exactly the advertised list, " +
 			"inputs are ramps (distinct value in every slot), BGV compared exactly mod t, CKKS within a bound computed from declared noise supports x16. " +
+			"Scheme-less RLWE worlds (NTTFlag false/true) are judged on coefficients after an independent decryption. " +
 			"distinct_nontrivial counts distinct (scenario, operation, expected vector) classes.",
 		Assumptions: []string{
 			"hoisted variants are only exercised on parameter sets with an auxiliary modulus (statement)",
 			"InnerSum / InnerFunction are judged on the slots their documentation promises (leftmost sub-vector of each complete group); RotateAndAdd / PartialTracesSum / Replicate on all slots",
 			"Trace depth convention: logN=0 is the documented full trace, other depths keep the coefficients of a 2^logN-slot plaintext (ckks.TraceNew: log(n) = logSlots)",
-			"CKKS without auxiliary modulus uses evaluation keys with a base-2^6 decomposition (otherwise key-switch noise exceeds any 45-bit scale)",
+			"CKKS without auxiliary modulus uses evaluation keys with a base-2^6 decomposition (otherwise key-switch noise exceeds any 45-bit scale); BGV and plain RLWE without P use default keys (and base-2^16 keys in one world)",
+			"GaloisElementsForPack/ForExpand are called with LogN, as the library's own key generators do (the meaning of a smaller argument is not documented)",
+			"Expand: the constant coefficient of every returned ciphertext is judged (all coefficients when logGap = 0)",
+			"hoisted entry points are not exercised with base-2 decomposed keys (the library states that combination is unsupported)",
 		},
 		Scenarios:      scenarios,
 		QuickBudget:    150 * time.Second,
